@@ -12,6 +12,8 @@ def run(ctx):
     ctx.rule = ("operator suites as for C05; impl_probe: builders applied to constant fields on graded meshes with random-sign u, "
                 "sources-only solve; non-trivial = N>=2 on some axis and non-constant coefficients")
     ctx.prove("C06")
+    from suites import symsuite
+    run_suites(ctx, ["symbolic"], runner=symsuite.run_suite, relevant=symsuite.relevant_for(['diffusion', 'central', 'upwind']))
     run_suites(ctx, SUITES)
     try:
         n = probes.probe_c06(ctx, pf)
